@@ -57,6 +57,7 @@ type UpConnRec struct {
 	Done      bool
 	DoneAt    time.Duration
 	AcceptAt  time.Duration
+	FirstDataStep int // global event number of the first byte received (0 = none yet)
 	End       *simnet.End
 	Script    *UpScript
 	Health    bool // connection made by a health check (closed at once by the prober)
@@ -88,7 +89,7 @@ func (p *ProxyUps) Add(network, addr string, maxDialLatencyMs int) *simnet.Upstr
 func (p *ProxyUps) serve(addr string, c net.Conn, end *simnet.End, idx int) {
 	e := p.E
 	sc := p.ScriptFor(addr, idx)
-	rec := &UpConnRec{Addr: addr, Idx: idx, End: end, Script: sc, AcceptAt: e.S.Elapsed()}
+	rec := &UpConnRec{Addr: addr, Idx: idx, End: end, Script: sc, AcceptAt: e.S.Elapsed(), By: end.Peer().Name}
 	lk()
 	p.Recs = append(p.Recs, rec)
 	ulk()
@@ -105,7 +106,11 @@ func (p *ProxyUps) serve(addr string, c net.Conn, end *simnet.End, idx int) {
 		for {
 			n, err := c.Read(buf)
 			if n > 0 {
+				st := e.S.StepNow()
 				lk()
+				if rec.FirstDataStep == 0 {
+					rec.FirstDataStep = st
+				}
 				rec.Received = append(rec.Received, buf[:n]...)
 				total := len(rec.Received)
 				ulk()
